@@ -1133,7 +1133,11 @@ def lru_run_sequence(ns, cfg, ops):
         try:
             with watchdog():
                 if n == "get":
-                    r = c.get(op[1])
+                    if len(op) > 2 and op[2] == "default":
+                        r = c.get(op[1], -7)  # explicit default
+                        r = None if r == -7 else r
+                    else:
+                        r = c.get(op[1])
                     ret = "-" if r is None else "v%d" % r
                 elif n == "getitem":
                     ret = "v%d" % c[op[1]]
@@ -1260,7 +1264,7 @@ def lru_gen(rng, maxlen=16):
             val[0] += 1
             ops.append(["set", k, val[0]])
         elif w < 0.57:
-            ops.append(["get", k])
+            ops.append(["get", k] + (["default"] if rng.random() < 0.4 else []))
         elif w < 0.67:
             ops.append(["getitem", k])
         elif w < 0.73:
